@@ -26,6 +26,20 @@ func (server *Server) Set(conn *redis.Conn, key string, val string, opt redis.Se
 		return nil, err
 	}
 
+	if opt.XX || (opt.NX && opt.GET) {
+		currRecord, exists := db.GetRecord(key)
+		if (opt.XX && !exists) || (opt.NX && exists) {
+			// The condition does not hold: nothing is stored, and GET still
+			// answers the value that is there.
+			if opt.GET && exists {
+				if stringData, ok := currRecord.Data.(string); ok {
+					return redis.NewBulkMessage(stringData), nil
+				}
+			}
+			return redis.NewNilMessage(), nil
+		}
+	}
+
 	var oldVal []byte
 	hasOldRecord := false
 	if opt.NX || opt.GET {
@@ -34,7 +48,8 @@ func (server *Server) Set(conn *redis.Conn, key string, val string, opt redis.Se
 		switch {
 		case opt.NX:
 			if hasOldRecord {
-				return redis.NewIntegerMessage(0), nil
+				// Like SET with NX: nil when the key exists (SETNX turns it into 0).
+				return redis.NewNilMessage(), nil
 			}
 		case opt.GET:
 			if hasOldRecord {
@@ -55,8 +70,9 @@ func (server *Server) Set(conn *redis.Conn, key string, val string, opt redis.Se
 	db.SetRecord(record)
 
 	switch {
-	case opt.NX:
-		return redis.NewIntegerMessage(1), nil
+	case opt.NX && !opt.GET:
+		// Like SET with NX: OK when the key was set (SETNX turns it into 1).
+		return redis.NewOKMessage(), nil
 	case opt.GET:
 		if hasOldRecord && oldVal != nil {
 			return redis.NewBulkMessage(string(oldVal)), nil
